@@ -25,6 +25,22 @@ Definition frag_binop (op : binop) : bool :=
   | Nop | Div => false
   end.
 
+(* expressions that contain no statements (no if-expression), so no break/continue can leave them: the
+   condition of a loop must be one (the reference interpreter lets a break inside the CONDITION of a loop
+   end the enclosing loop, the emitted Lua ends the loop itself) *)
+Fixpoint noexit_expr (k : nat) (x : expr) {struct k} : bool :=
+  match k with
+  | O => false
+  | S k =>
+      match x with
+      | EInt _ _ | EBool _ _ | ERead _ _ => true
+      | EBinOp op a b _ => frag_binop op && noexit_expr k a && noexit_expr k b
+      | EUniOp _ a _ => noexit_expr k a
+      | ECall (ERead _ _) [a] _ => noexit_expr k a
+      | _ => false
+      end
+  end.
+
 Section Frag.
 Variable pv : N.      (* the id of the external `print` *)
 Variable sv : N.      (* the id of `start` *)
@@ -33,7 +49,13 @@ Variable bound : N.   (* |r_vars| + 1 *)
 Definition fresh_id (sc : list N) (v : N) : bool :=
   negb (memN v sc) && negb (v =? pv) && negb (v =? sv) && (v <? bound).
 
-(* expressions; sc = the user variables in scope (all of them locals of `start`) *)
+Definition assign_op (op : binop) : bool :=
+  match op with Nop | Add | Sub | Mul => true | _ => false end.
+
+Definition is_some {A} (o : option A) : bool := match o with Some _ => true | None => false end.
+
+(* expressions; sc = the user variables in scope (all of them locals of `start`).
+   if-expressions: an `else` branch only in last position; the bodies are statement lists in their own scope. *)
 Fixpoint frag_expr (k : nat) (sc : list N) (x : expr) {struct k} : bool :=
   match k with
   | O => false
@@ -44,12 +66,26 @@ Fixpoint frag_expr (k : nat) (sc : list N) (x : expr) {struct k} : bool :=
       | EBinOp op a b _ => frag_binop op && frag_expr k sc a && frag_expr k sc b
       | EUniOp _ a _ => frag_expr k sc a
       | ECall (ERead f _) [a] _ => (f =? pv) && negb (memN pv sc) && frag_expr k sc a      (* print(a) *)
+      | EIf branches _ => frag_branches k sc branches
       | _ => false
       end
-  end.
+  end
+
+with frag_branches (k : nat) (sc : list N) (brs : list ifbranch) {struct k} : bool :=
+  match k with
+  | O => false
+  | S k =>
+      match brs with
+      | [] => true
+      | IfBranch (Some cond) body _ :: brs' =>
+          frag_expr k sc cond && is_some (frag_stmts k sc body) && frag_branches k sc brs'
+      | [IfBranch None body _] => is_some (frag_stmts k sc body)
+      | IfBranch None _ _ :: _ :: _ => false
+      end
+  end
 
 (* statements: the scope after the statement, None = outside the fragment *)
-Fixpoint frag_stmt (k : nat) (sc : list N) (s : stmt) {struct k} : option (list N) :=
+with frag_stmt (k : nat) (sc : list N) (s : stmt) {struct k} : option (list N) :=
   match k with
   | O => None
   | S k =>
@@ -59,9 +95,14 @@ Fixpoint frag_stmt (k : nat) (sc : list N) (s : stmt) {struct k} : option (list 
           | EFunction _ _ _ _ _ _ => None
           | _ => if fresh_id sc var && frag_expr k (var :: sc) value then Some (var :: sc) else None
           end
+      | SAssignment op (ERead v _) value _ =>
+          if assign_op op && memN v sc && frag_expr k sc value then Some sc else None
       | SStatementExpression value _ => if frag_expr k sc value then Some sc else None
       | SBlock ss _ =>
           match frag_stmts k sc ss with Some _ => Some sc | None => None end
+      | SLoop cond body _ =>
+          if noexit_expr k cond && frag_expr k sc cond && is_some (frag_stmts k sc body) then Some sc else None
+      | SBreak _ | SContinue _ => Some sc
       | _ => None
       end
   end
@@ -87,10 +128,14 @@ Definition find_start (vars : list var) : option N :=
   | None => None
   end.
 
-(* STAGE 1: `print` external + `start :: fn do ... end` whose body consists of definitions of
-   int/bool-valued expressions, expression statements and nested blocks; expressions are int and bool
-   literals, reads of local variables, + - *, the six comparisons, <=> (assert-equal), and/or/not, unary
-   minus, and calls of print with one argument. *)
+(* STAGE 2 (stage 1 + assignments, if, loops):
+   `print` external + `start :: fn do ... end` whose body consists of
+     - definitions (constant or mutable) of int/bool-valued expressions, expression statements, nested blocks,
+     - assignments  x = e, x += e, x -= e, x *= e  to local variables,
+     - loops `loop c do ... end` with break and continue (the condition c without if-expressions);
+   expressions are int and bool literals, reads of local variables, + - *, the six comparisons,
+   <=> (assert-equal), and/or/not, unary minus, calls of print with one argument, and if/elif/else
+   expressions and statements whose branches are statement lists. *)
 Definition frag (k : nat) (r : resolved) : bool :=
   let bound := N.of_nat (length (r_vars r)) + 1 in
   match r_stmts r with
